@@ -10,7 +10,8 @@
 //	            {constant, other constant, dynamic} per argument position
 //	live        {time live} / {time delta} keep changing with the clock in the
 //	            optimised builder, wherever they are nested
-//	funcs       a funcs file in random layout loads like its one-line-per-
+//	funcs       1..3 funcs files (names may be defined again, in the same or a later
+//	            file) in random layout load like their one-line-per-
 //	            definition form, and {name a b ..} == the body with {i} := a_i
 //	            substituted ON THE TREE; a sample also through the rare binary
 //	concurrent  both relations from 1..8 goroutines sharing compiled expressions
@@ -726,14 +727,18 @@ func TestLive(t *testing.T) { pbt.Run(t, liveSpec) }
 // ---------------------------------------------------------------- (b) funcs files
 
 type FuncsCase struct {
-	File   pbt.S    // the funcs file in generated layout
-	Flat   pbt.S    // the same definitions, one per line, no comments, no continuations
-	Names  []string // definition names in file order
+	Files  []pbt.S  // the funcs files in generated layout, in loading order (--funcs f1 --funcs f2 ..)
+	Flats  []pbt.S  // the same definitions file by file, one per line, no comments, no continuations
+	Names  []string // the distinct names they define, by first appearance
 	Call   pbt.S    // template calling the user functions
-	Inline pbt.S    // the same tree with every call replaced by the substituted body
+	Inline pbt.S    // the same tree with every call replaced by the substituted body (see Opaque)
+	// Opaque: number of calls left in place in Inline: calls of a name that is
+	// defined more than once, which the reference never expands (see visible)
+	Opaque int
 	Ctxs   []Ctx
 	Sw     Switches
 	Cli    bool // also through the rare binary (first context)
+	Env    bool // .. naming the files in RARE_FUNC_FILES instead of --funcs
 	// from the generator, for labels and the non-trivial rule
 	Continuations, CommentsInside, BlanksInside int
 	TopBreaks, BreakAfterBackslash              int
@@ -746,7 +751,7 @@ type FuncsCase struct {
 func flatFile(defs []*Def) string {
 	var sb strings.Builder
 	for _, d := range defs {
-		sb.WriteString(d.Name + " " + printTemplate(d.Body, oneSpace, nil) + "\n")
+		sb.WriteString(d.Pub + " " + printTemplate(d.Body, oneSpace, nil) + "\n")
 	}
 	return sb.String()
 }
@@ -815,23 +820,49 @@ func buildFuncs(g *gctx, maxCtx int, cliPct int, statelessOnly bool) FuncsCase {
 	// bodies: well-formed constants and kind-correct nesting, so that the file loads
 	g.good, g.typedOnly = true, true
 	defs := g.definitions(5)
+	callable := g.defs // what the calling template may name, see visible
 	lay := &layout{g: g}
-	c.File = pbt.S(lay.file(defs))
-	c.Flat = pbt.S(flatFile(defs))
+	nFiles := defs[len(defs)-1].File + 1
+	for f := 0; f < nFiles; f++ {
+		var sub []*Def
+		for _, d := range defs {
+			if d.File == f {
+				sub = append(sub, d)
+			}
+		}
+		c.Files = append(c.Files, pbt.S(lay.file(sub)))
+		c.Flats = append(c.Flats, pbt.S(flatFile(sub)))
+	}
 	c.Continuations, c.CommentsInside, c.BlanksInside = lay.continuations, lay.commentsIn, lay.blankIn
 	c.TopBreaks, c.BreakAfterBackslash = lay.topBreaks, lay.breakAfterBackslash
+	// dm: every definition under its identity; a body may be bound to a
+	// definition the calling template can no longer name
 	dm := map[string]*Def{}
+	filesOf := map[string]map[int]bool{}
 	for _, d := range defs {
-		c.Names = append(c.Names, d.Name)
+		if filesOf[d.Pub] == nil {
+			filesOf[d.Pub] = map[int]bool{}
+			c.Names = append(c.Names, d.Pub)
+		} else if filesOf[d.Pub][d.File] {
+			g.label("name-defined-again-in-the-same-file")
+		} else {
+			g.label("name-defined-again-in-a-later-file")
+		}
+		filesOf[d.Pub][d.File] = true
 		dm[d.Name] = d
 		mx, _, _, _ := argUses(d)
 		if mx > c.MaxArgUses {
 			c.MaxArgUses = mx
 		}
 	}
+	g.label(fmt.Sprintf("funcs-files:%d", nFiles))
 	c.CallsEarlier = g.labels["body-calls-earlier-definition"]
 	// the calling template: anything goes at the call sites
+	if nFiles >= 2 {
+		cliPct *= 3
+	}
 	c.Cli = g.chance(cliPct, "cli")
+	c.Env = g.chance(35, "filesFromEnvironment")
 	g.cliSafe = c.Cli
 	g.body = nil
 	g.good = g.chance(75, "goodCallSite")
@@ -840,7 +871,7 @@ func buildFuncs(g *gctx, maxCtx int, cliPct int, statelessOnly bool) FuncsCase {
 	pieces := g.template(3, 2)
 	if any, _, _ := hasUserCall(pieces, dm); !any {
 		g.budget--
-		pieces = append(pieces, g.callDef(defs[g.n(0, len(defs)-1, "forcedCall")], 2, true))
+		pieces = append(pieces, g.callDef(g.callee(callable, false, "forcedCall"), 2, true))
 	}
 	inl := inlineAll(pieces, dm)
 	if !printable(inl) {
@@ -848,15 +879,35 @@ func buildFuncs(g *gctx, maxCtx int, cliPct int, statelessOnly bool) FuncsCase {
 		// printer's means (a blank inside a concatenated argument, a quoted
 		// text inside a quoted text): fall back to one plain call
 		pbt.Exclude("inlined-body-not-printable-at-call-depth")
-		d := defs[0]
-		cl := call(d.Name)
-		for i := 0; i < len(d.Params) || i < 1; i++ {
-			cl.A = append(cl.A, lit("7"))
+		// the first definition has no user call in its body: its plain call is
+		// always printable; when its name is defined again the name is opaque
+		// at the call site and the call stays as it is
+		var order []*Def
+		for _, e := range callable {
+			if !e.Opaque {
+				order = append(order, e)
+			}
 		}
-		pieces = []*Node{cl}
-		inl = inlineAll(pieces, dm)
-		if !printable(inl) {
-			panic("c10: fallback call is not printable: " + printTemplate(inl, oneSpace, nil))
+		for _, e := range callable {
+			if e.Opaque {
+				order = append(order, e)
+			}
+		}
+		found := false
+		for _, d := range order {
+			cl := call(d.Name)
+			for i := 0; i < len(d.Params) || i < 1; i++ {
+				cl.A = append(cl.A, lit("7"))
+			}
+			pieces = []*Node{cl}
+			inl = inlineAll(pieces, dm)
+			if printable(inl) {
+				found = true
+				break
+			}
+		}
+		if !found {
+			panic("c10: no fallback call is printable: " + printTemplate(inl, oneSpace, nil))
 		}
 		g.label("fallback-call")
 	}
@@ -866,6 +917,27 @@ func buildFuncs(g *gctx, maxCtx int, cliPct int, statelessOnly bool) FuncsCase {
 	}
 	if inLam {
 		g.label("user-call-inside-sub-expression")
+	}
+	// calls the reference leaves in place
+	walk(inl, func(n *Node) {
+		if n.K != kCall || !strings.HasSuffix(n.S, "#?") {
+			return
+		}
+		c.Opaque++
+		pbt.Exclude("call-of-a-name-defined-more-than-once:never-expanded(first-or-last-definition-wins-is-undocumented)")
+		if n.InBody {
+			// the class the registration order shows in: the body was bound in
+			// the loader, the same call written inline is bound at the call site
+			g.label("multiply-defined-name-called-from-an-expanded-body")
+			if len(filesOf[writtenName(n.S)]) >= 2 {
+				g.label("multiply-defined-name-called-from-an-expanded-body:definitions-in-different-files")
+			}
+		} else {
+			g.label("multiply-defined-name-called-by-the-template-itself")
+		}
+	})
+	if any, _, _ := hasUserCall(pieces, dm); !any {
+		g.label("no-expandable-call")
 	}
 	c.Call = pbt.S(printTemplate(pieces, g.sepFn(), g.padFn()))
 	c.Inline = pbt.S(printTemplate(inl, oneSpace, nil))
@@ -884,46 +956,60 @@ func genFuncs(t *rapid.T) FuncsCase {
 	return buildFuncs(g, 6, pct, pbt.IsKnown("C10", knownSharedTimeCache))
 }
 
-// loadBoth loads the generated layout and the flat form into fresh compilers
-// and checks the layout changed nothing about WHAT was defined. ok=false: the
-// flat form itself does not load (a body with a compile-time error): nothing
-// to compare further.
-func loadBoth(c FuncsCase) (fancy, flat map[string]expressions.KeyBuilderFunction, ok bool, err error) {
-	flat, flatErr := funcfile.LoadDefinitions(funclib.NewKeyBuilder(), strings.NewReader(withTable(c.Flat)), "flat.funcs")
-	fancy, fancyErr := funcfile.LoadDefinitions(funclib.NewKeyBuilder(), strings.NewReader(withTable(c.File)), "layout.funcs")
-	names := func(m map[string]expressions.KeyBuilderFunction) string {
-		return strings.Join(pbt.SortedKeys(m), " ")
-	}
-	if names(fancy) != names(flat) || (fancyErr != nil) != (flatErr != nil) {
-		return nil, nil, false, fmt.Errorf("comments / blank lines / continuations changed what the funcs file defines\n file:\n%s\n defines [%s] (error: %v)\n one definition per line:\n%s\n defines [%s] (error: %v)", indent(string(c.File)), names(fancy), fancyErr, indent(string(c.Flat)), names(flat), flatErr)
-	}
-	if flatErr != nil || len(flat) != len(c.Names) {
-		c.Obs.Label(true, "a-body-does-not-compile")
-		pbt.Exclude("funcs-file-with-a-body-that-does-not-compile")
-		return nil, nil, false, nil
-	}
-	for _, n := range c.Names {
-		if flat[n] == nil {
-			return nil, nil, false, fmt.Errorf("definition %q is missing after loading\n%s", n, indent(string(c.Flat)))
+// showFiles prints the funcs files of a case for a message.
+func showFiles(files []pbt.S) string {
+	var sb strings.Builder
+	for i, f := range files {
+		if i > 0 {
+			sb.WriteByte('\n')
 		}
+		fmt.Fprintf(&sb, " funcs file %d of %d:\n%s", i+1, len(files), indent(string(f)))
 	}
-	return fancy, flat, true, nil
+	return sb.String()
+}
+
+// registration is what loading a sequence of funcs files leaves behind, and
+// the calling template / the inlined template compiled against it.
+type registration struct {
+	perFile string // names every file defined: "a b | c"
+	err     error  // first load error
+	table   string // names in the shared table afterwards
+
+	callO, callP, inlO, inlP     *expressions.CompiledKeyBuilder
+	callOE, callPE, inlOE, inlPE *expressions.CompilerErrors
+}
+
+// register loads the files in order the way main.go's Before hook does: ONE
+// compiler (created from the shared table before the first file) compiles all
+// of them, each file's result goes into the shared table through
+// funclib.TryAddFunctions before the next file is read; the templates are then
+// compiled by fresh builders of funclib, as every command does.
+func register(files []pbt.S, tag, call, inline string) *registration {
+	for k := range funclib.Additional {
+		delete(funclib.Additional, k)
+	}
+	r := &registration{}
+	cmplr := funclib.NewKeyBuilder()
+	var per []string
+	for i, f := range files {
+		funcs, err := funcfile.LoadDefinitions(cmplr, strings.NewReader(withTable(f)), fmt.Sprintf("%s-%d.funcs", tag, i+1))
+		if err != nil && r.err == nil {
+			r.err = err
+		}
+		per = append(per, strings.Join(pbt.SortedKeys(funcs), " "))
+		funclib.TryAddFunctions(funcs, nil)
+	}
+	r.perFile = strings.Join(per, " | ")
+	r.table = strings.Join(pbt.SortedKeys(funclib.Additional), " ")
+	r.callO, r.callOE = funclib.NewKeyBuilderEx(true).Compile(call)
+	r.callP, r.callPE = funclib.NewKeyBuilderEx(false).Compile(call)
+	r.inlO, r.inlOE = funclib.NewKeyBuilderEx(true).Compile(inline)
+	r.inlP, r.inlPE = funclib.NewKeyBuilderEx(false).Compile(inline)
+	return r
 }
 
 func indent(s string) string {
 	return "   | " + strings.ReplaceAll(pbt.Trunc(s, 1500), "\n", "\n   | ")
-}
-
-// compileFuncs registers a loaded set the way main.go does and compiles the
-// calling template with both builders.
-func compileCall(funcs map[string]expressions.KeyBuilderFunction, tpl string) (opt, plain *expressions.CompiledKeyBuilder, oerr, perr *expressions.CompilerErrors) {
-	for k := range funclib.Additional {
-		delete(funclib.Additional, k)
-	}
-	funclib.TryAddFunctions(funcs, nil)
-	opt, oerr = funclib.NewKeyBuilderEx(true).Compile(tpl)
-	plain, perr = funclib.NewKeyBuilderEx(false).Compile(tpl)
-	return
 }
 
 type funcsCompiled struct {
@@ -931,28 +1017,51 @@ type funcsCompiled struct {
 	inline *expressions.CompiledKeyBuilder
 }
 
+// compileFuncs loads the one-definition-per-line files and the generated
+// layout (the latter stays registered) and compiles the call and the inlined
+// template against each. nil, nil: nothing to compare (counted).
 func compileFuncs(c FuncsCase) (fc *funcsCompiled, err error) {
-	fancy, flat, ok, err := loadBoth(c)
-	if err != nil || !ok {
-		return nil, err
-	}
 	call, inlineT := withTable(c.Call), withTable(c.Inline)
-	inl, ierr := stdlib.NewStdKeyBuilderEx(true).Compile(inlineT)
-	inlP, iperr := stdlib.NewStdKeyBuilderEx(false).Compile(inlineT)
-	fo, fp, foErr, fpErr := compileCall(flat, call)
-	lo, lp, loErr, lpErr := compileCall(fancy, call) // leaves the generated layout registered
-	describe := func() string {
-		return fmt.Sprintf(" funcs file:\n%s\n call:   %s\n inline: %s", indent(string(c.File)), q(call), q(inlineT))
+	flat := register(c.Flats, "flat", call, inlineT)
+	fancy := register(c.Files, "layout", call, inlineT)
+	if fancy.perFile != flat.perFile || (fancy.err != nil) != (flat.err != nil) {
+		return nil, fmt.Errorf("comments / blank lines / continuations changed what the funcs files define\n%s\n define [%s] (error: %v)\n one definition per line:\n%s\n define [%s] (error: %v)", showFiles(c.Files), fancy.perFile, fancy.err, showFiles(c.Flats), flat.perFile, flat.err)
 	}
-	for _, e := range []*expressions.CompilerErrors{foErr, fpErr, loErr, lpErr} {
-		if (e != nil) != (foErr != nil) {
-			return nil, fmt.Errorf("the call compiles in one configuration and not in another (flat/opt %v, flat/plain %v, layout/opt %v, layout/plain %v)\n%s", errText(foErr), errText(fpErr), errText(loErr), errText(lpErr), describe())
+	want := append([]string(nil), c.Names...)
+	sort.Strings(want)
+	if flat.err != nil {
+		c.Obs.Label(true, "a-body-does-not-compile")
+		pbt.Exclude("funcs-file-with-a-body-that-does-not-compile")
+		return nil, nil
+	}
+	for _, r := range []*registration{flat, fancy} {
+		if r.table != strings.Join(want, " ") {
+			return nil, fmt.Errorf("after loading without an error the shared function table holds [%s], the files define [%s]\n%s", r.table, strings.Join(want, " "), showFiles(c.Files))
 		}
 	}
-	if (ierr != nil) != (iperr != nil) {
-		return nil, fmt.Errorf("the builders disagree about whether the inlined template compiles: optimised %v, plain %v\n%s", errText(ierr), errText(iperr), describe())
+	describe := func() string {
+		return fmt.Sprintf("%s\n call:   %s\n inline: %s", showFiles(c.Files), q(call), q(inlineT))
 	}
-	if ierr != nil {
+	callErrs := []*expressions.CompilerErrors{flat.callOE, flat.callPE, fancy.callOE, fancy.callPE}
+	for _, e := range callErrs {
+		if (e != nil) != (callErrs[0] != nil) {
+			return nil, fmt.Errorf("the call compiles in one configuration and not in another (flat/opt %v, flat/plain %v, layout/opt %v, layout/plain %v)\n%s", errText(callErrs[0]), errText(callErrs[1]), errText(callErrs[2]), errText(callErrs[3]), describe())
+		}
+	}
+	inlErrs := []*expressions.CompilerErrors{flat.inlOE, flat.inlPE, fancy.inlOE, fancy.inlPE}
+	var std *expressions.CompiledKeyBuilder
+	if c.Opaque == 0 {
+		// nothing left in place: the inlined template needs no user function at all
+		var serr *expressions.CompilerErrors
+		std, serr = stdlib.NewStdKeyBuilderEx(true).Compile(inlineT)
+		inlErrs = append(inlErrs, serr)
+	}
+	for _, e := range inlErrs {
+		if (e != nil) != (inlErrs[0] != nil) {
+			return nil, fmt.Errorf("the builders disagree about whether the inlined template compiles: flat/opt %v, flat/plain %v, layout/opt %v, layout/plain %v, without user functions %v\n%s", errText(inlErrs[0]), errText(inlErrs[1]), errText(inlErrs[2]), errText(inlErrs[3]), errText(inlErrs[len(inlErrs)-1]), describe())
+		}
+	}
+	if inlErrs[0] != nil {
 		// a constant argument that is rejected at compile time once it stands
 		// in the body's typed position: the call defers that to run time
 		// (<BAD-TYPE>); which of the two is "the same" is not documented
@@ -960,7 +1069,7 @@ func compileFuncs(c FuncsCase) (fc *funcsCompiled, err error) {
 		pbt.Exclude("inlined-template-has-a-compile-time-error")
 		return nil, nil
 	}
-	if foErr != nil {
+	if foErr := callErrs[0]; foErr != nil {
 		// the reverse: an argument the body never reads (or an extra one) is
 		// itself an invalid expression, e.g. {sumi {f x} 1} with {f x} constant
 		// text: compiled at the call site, absent from the inlined body. Not a
@@ -974,10 +1083,15 @@ func compileFuncs(c FuncsCase) (fc *funcsCompiled, err error) {
 		pbt.Exclude("call-argument-with-a-compile-time-error")
 		return nil, nil
 	}
-	return &funcsCompiled{
-		exprs:  []compiled{{"layout file, optimised", lo}, {"layout file, non-optimised", lp}, {"flat file, optimised", fo}, {"flat file, non-optimised", fp}, {"inline, non-optimised", inlP}},
-		inline: inl,
-	}, nil
+	fc = &funcsCompiled{
+		exprs: []compiled{{"layout files, optimised", fancy.callO}, {"layout files, non-optimised", fancy.callP}, {"flat files, optimised", flat.callO}, {"flat files, non-optimised", flat.callP},
+			{"inline, non-optimised", fancy.inlP}, {"inline, flat files registered", flat.inlO}},
+		inline: fancy.inlO,
+	}
+	if std != nil {
+		fc.exprs = append(fc.exprs, compiled{"inline, no user function registered", std})
+	}
+	return fc, nil
 }
 
 func checkFuncs(c FuncsCase) error {
@@ -997,7 +1111,7 @@ func checkFuncs(c FuncsCase) error {
 		for _, e := range fc.exprs {
 			got := e.kb.BuildKey(x.kb(nil))
 			if got != want {
-				return fmt.Errorf("a call of a user function differs from its body written inline (%s)\n funcs file:\n%s\n call:   %s\n inline: %s\n context %d of %d: %s\n call gives:   %s\n inline gives: %s", e.name, indent(string(c.File)), q(withTable(c.Call)), q(withTable(c.Inline)), i+1, len(c.Ctxs), describeCtx(x), q(got), q(want))
+				return fmt.Errorf("a call of a user function differs from its body written inline (%s)\n%s\n call:   %s\n inline: %s\n context %d of %d: %s\n call gives:   %s\n inline gives: %s", e.name, showFiles(c.Files), q(withTable(c.Call)), q(withTable(c.Inline)), i+1, len(c.Ctxs), describeCtx(x), q(got), q(want))
 			}
 		}
 		c.Obs.Label(x.empty(), "all-empty-context")
@@ -1010,8 +1124,10 @@ func checkFuncs(c FuncsCase) error {
 	return nil
 }
 
-// checkCli: `rare --funcs f expression ..` with and without --no-optimize
-// prints what the inlined template evaluates to in-process.
+// checkCli: `rare --funcs f1 --funcs f2 .. expression ..` (or the same files
+// in RARE_FUNC_FILES) with and without --no-optimize prints what the inlined
+// template evaluates to in-process; when the inlined template still holds
+// calls (of names defined more than once), it is given to the binary as well.
 func checkCli(c FuncsCase, want string) error {
 	bin := os.Getenv("VERIF_RARE_BIN")
 	if bin == "" || len(c.Ctxs) == 0 {
@@ -1028,57 +1144,93 @@ func checkCli(c FuncsCase, want string) error {
 			return nil
 		}
 	}
-	tpl := withTable(c.Call)
-	if tpl == "-" || tpl == "" || strings.ContainsRune(tpl, 0) {
-		return nil
+	tpls := []string{withTable(c.Call)}
+	if c.Opaque > 0 {
+		tpls = append(tpls, withTable(c.Inline))
 	}
-	f, err := os.CreateTemp(scratchDir(), "c10-*.funcs")
-	if err != nil {
-		return nil
+	for _, tpl := range tpls {
+		if tpl == "-" || tpl == "" || strings.ContainsRune(tpl, 0) {
+			return nil
+		}
 	}
-	defer os.Remove(f.Name())
-	f.WriteString(withTable(c.File))
-	f.Close()
-	for _, noOpt := range []bool{false, true} {
-		var args []string
-		if c.Sw.Color {
-			args = append(args, "--color")
-		} else {
-			args = append(args, "--nocolor")
+	var paths []string
+	defer func() {
+		for _, p := range paths {
+			os.Remove(p)
 		}
-		if !c.Sw.Humanize {
-			args = append(args, "--noformat")
+	}()
+	for _, content := range c.Files {
+		f, err := os.CreateTemp(scratchDir(), "c10-*.funcs")
+		if err != nil {
+			return nil
 		}
-		if !c.Sw.Unicode {
-			args = append(args, "--nounicode")
+		paths = append(paths, f.Name())
+		f.WriteString(withTable(content))
+		f.Close()
+	}
+	env := c.Env
+	for _, p := range paths {
+		if strings.ContainsAny(p, ", ") {
+			env = false // a comma separates the list
 		}
-		args = append(args, "--funcs", f.Name(), "expression", "--raw", "--skip-newline")
-		if noOpt {
-			args = append(args, "--no-optimize")
-		}
-		for _, v := range x.G {
-			args = append(args, "--data="+string(v))
-		}
-		for _, kv := range x.K {
-			args = append(args, "--key="+string(kv[0])+"="+string(kv[1]))
-		}
-		args = append(args, "--", tpl)
-		cmd := exec.Command(bin, args...)
-		var out, errb bytes.Buffer
-		cmd.Stdout, cmd.Stderr = &out, &errb
-		cmd.Env = append(os.Environ(), "RARE_FUNC_FILES=")
-		rerr := cmd.Run()
-		if rerr != nil {
-			if _, isExit := rerr.(*exec.ExitError); !isExit {
-				return nil // could not start the binary: not a verdict
+	}
+	for ti, tpl := range tpls {
+		for _, noOpt := range []bool{false, true} {
+			var args []string
+			if c.Sw.Color {
+				args = append(args, "--color")
+			} else {
+				args = append(args, "--nocolor")
 			}
-			return fmt.Errorf("rare --funcs .. expression failed (%v) on a call that compiles in-process\n args: %q\n funcs file:\n%s\n stderr: %s", rerr, args, indent(string(c.File)), pbt.Trunc(errb.String(), 600))
-		}
-		if out.String() != want {
-			return fmt.Errorf("the rare binary prints another value than the body written inline (--no-optimize=%v)\n args: %q\n funcs file:\n%s\n inline: %s\n binary prints: %s\n inline gives:  %s\n stderr: %s", noOpt, args, indent(string(c.File)), q(withTable(c.Inline)), q(out.String()), q(want), pbt.Trunc(errb.String(), 300))
+			if !c.Sw.Humanize {
+				args = append(args, "--noformat")
+			}
+			if !c.Sw.Unicode {
+				args = append(args, "--nounicode")
+			}
+			funcEnv := "RARE_FUNC_FILES="
+			if env {
+				funcEnv += strings.Join(paths, ",")
+			} else {
+				for _, p := range paths {
+					args = append(args, "--funcs", p)
+				}
+			}
+			args = append(args, "expression", "--raw", "--skip-newline")
+			if noOpt {
+				args = append(args, "--no-optimize")
+			}
+			for _, v := range x.G {
+				args = append(args, "--data="+string(v))
+			}
+			for _, kv := range x.K {
+				args = append(args, "--key="+string(kv[0])+"="+string(kv[1]))
+			}
+			args = append(args, "--", tpl)
+			cmd := exec.Command(bin, args...)
+			var out, errb bytes.Buffer
+			cmd.Stdout, cmd.Stderr = &out, &errb
+			cmd.Env = append(os.Environ(), funcEnv)
+			rerr := cmd.Run()
+			what := "the call"
+			if ti == 1 {
+				what = "the body written inline (given to the binary with the same files)"
+			}
+			if rerr != nil {
+				if _, isExit := rerr.(*exec.ExitError); !isExit {
+					return nil // could not start the binary: not a verdict
+				}
+				return fmt.Errorf("rare --funcs .. expression failed (%v) on a template that compiles in-process: %s\n args: %q\n env: %s\n%s\n stderr: %s", rerr, what, args, funcEnv, showFiles(c.Files), pbt.Trunc(errb.String(), 600))
+			}
+			if out.String() != want {
+				return fmt.Errorf("the rare binary prints another value for %s than the body written inline gives in-process (--no-optimize=%v)\n args: %q\n env: %s\n%s\n inline: %s\n binary prints: %s\n inline gives:  %s\n stderr: %s", what, noOpt, args, funcEnv, showFiles(c.Files), q(withTable(c.Inline)), q(out.String()), q(want), pbt.Trunc(errb.String(), 300))
+			}
 		}
 	}
 	c.Obs.Label(true, "through-the-rare-binary")
+	c.Obs.Label(len(paths) >= 2 && !env, "binary:--funcs-given-more-than-once")
+	c.Obs.Label(len(paths) >= 2 && env, "binary:comma-separated-RARE_FUNC_FILES")
+	c.Obs.Label(c.Opaque > 0, "binary:inline-with-calls-left-in-place")
 	return nil
 }
 
@@ -1099,6 +1251,7 @@ func classifyFuncs(c FuncsCase) (bool, []string) {
 	add(c.MaxArgUses >= 2, "argument-used-twice")
 	add(c.CallsEarlier, "calls-earlier-definition")
 	add(len(c.Names) >= 3, "definitions>=3")
+	add(c.Opaque > 0, "inline-keeps-calls-of-multiply-defined-names")
 	l = append(l, fmt.Sprintf("contexts:%d", len(c.Ctxs)))
 	nt := (c.MaxArgUses >= 2 || c.CallsEarlier) && c.Continuations > 0 && c.Obs.Has("compiled")
 	return nt, l
@@ -1106,7 +1259,7 @@ func classifyFuncs(c FuncsCase) (bool, []string) {
 
 var funcsSpec = pbt.Spec[FuncsCase]{
 	Property: "C10", Name: "funcs",
-	Rule:   "1..5 generated definitions (typed bodies over all helpers; parameters {0}..{2}, named keys, literal text, calls of earlier definitions), written in a random layout (# comment lines and trailing comments, blank lines, bodies broken with trailing backslashes at argument boundaries and after the name, blank/comment lines between continuation lines, with/without final newline) x a template calling them with k-1..k+1 arguments (constants, groups, keys, nested helper and user calls, inside sub-expressions) x 1..6 contexts; oracle: the layout defines what the one-line-per-definition file defines; the call (layout file and flat file, optimised and not, registered through funclib like main.go does) equals the body substituted on the tree and printed inline, for every context; 2% of the cases also through `rare --funcs f expression [--no-optimize] --data .. --key ..`. Non-trivial: some body uses an argument >=2 times or calls an earlier definition, the file has >=1 continuation, everything compiles; distinct by case JSON",
+	Rule:   "1..5 generated definitions (typed bodies over all helpers; parameters {0}..{2}, named keys, literal text, calls of earlier definitions) spread over 1..3 funcs files loaded in order, a definition may reuse the name of an earlier one (same file or a later file), written in a random layout (# comment lines and trailing comments, blank lines, bodies broken with trailing backslashes at argument boundaries and after the name, blank/comment lines between continuation lines, with/without final newline) x a template calling them with k-1..k+1 arguments (constants, groups, keys, nested helper and user calls, inside sub-expressions) x 1..6 contexts; loaded the way main.go does (one compiler for all files, each file registered through funclib.TryAddFunctions before the next is read); oracle: the layout defines file by file what the one-line-per-definition files define; the call (layout and flat files, optimised and not) equals the body substituted on the tree and printed inline, for every context. Binding of the reference: a call is bound to THE definition of its name that stands before it when there is exactly one (later definitions do not reach back; a redefinition calling its own name means the one it replaces); a call of a name with >=2 earlier definitions is never expanded (first-or-last-wins is undocumented) but left in place in the inlined template, which is compiled against the same registered files - so a later body calling such a name must still equal that body written inline; 2% (6% with >=2 files) of the cases also through `rare --funcs f1 --funcs f2 expression [--no-optimize] --data .. --key ..` or RARE_FUNC_FILES=f1,f2 (call, and the inlined template when calls are left in place). Non-trivial: some body uses an argument >=2 times or calls an earlier definition, the files have >=1 continuation, everything compiles; distinct by case JSON",
 	Budget: pbt.Budget{Quick: 60000, Thorough: 240000},
 	Gen:    genFuncs, Check: checkFuncs, Classify: classifyFuncs,
 }
@@ -1267,12 +1420,12 @@ func checkConcFuncs(c ConcFuncsCase) error {
 	for i, x := range c.Ctxs {
 		for _, e := range exprs {
 			if got := e.kb.BuildKey(x.kb(nil)); got != want[i] {
-				return fmt.Errorf("sequential evaluation already differs (%s)\n funcs file:\n%s\n call:   %s\n inline: %s\n context %d: %s\n got:  %s\n want: %s", e.name, indent(string(c.File)), q(withTable(c.Call)), q(withTable(c.Inline)), i+1, describeCtx(x), q(got), q(want[i]))
+				return fmt.Errorf("sequential evaluation already differs (%s)\n%s\n call:   %s\n inline: %s\n context %d: %s\n got:  %s\n want: %s", e.name, showFiles(c.Files), q(withTable(c.Call)), q(withTable(c.Inline)), i+1, describeCtx(x), q(got), q(want[i]))
 			}
 		}
 	}
 	if err := hammer(exprs, c.Ctxs, make([][]pbt.S, len(exprs)), want, c.W, c.Reps); err != nil {
-		return fmt.Errorf("%v\n funcs file:\n%s\n call:   %s\n inline: %s", err, indent(string(c.File)), q(withTable(c.Call)), q(withTable(c.Inline)))
+		return fmt.Errorf("%v\n%s\n call:   %s\n inline: %s", err, showFiles(c.Files), q(withTable(c.Call)), q(withTable(c.Inline)))
 	}
 	return nil
 }
